@@ -478,6 +478,10 @@ pub fn judge(prop: &str, d: Option<&Driver>, names: &[String], policy: Policy, k
                         let nothing = EntryKind::Undecodable;
                         if let Some((clause, msg)) = c09_oracle(d, damaged_entry.unwrap_or(&nothing), &obs) {
                             ev.failures.push(fail("C09", &clause, idx, format!("{what}: {msg}")));
+                        } else if let Some(msg) = w.range_forms.take() {
+                            // "recovered intact" includes being readable: a retained record that range(..) shows but
+                            // range(p..) / range(..=p) skip has not been recovered for a consumer that resumes from p
+                            ev.failures.push(fail("C09", "recovered-record-not-readable-through-bounded-range", idx, format!("{what}: {msg}")));
                         }
                     }
                     "C12" => {
